@@ -49,15 +49,18 @@ from common import run_driver, WORK  # noqa: E402
 from props.moncommon import (Mon, DEVS, WIDTHS, install_timer, core_of, tohex, unhex)  # noqa: E402
 
 ID = 'C20'
-LEAN_MODULES = ['Py65.Props.C20', 'Py65.Proofs.MonPreGenEq', 'Py65.Proofs.MonCmdGenEq', 'Py65.Props.C20g']
-NAMESPACES = ['Py65.Props.C20', 'Py65.Proofs.MonPreGenEq', 'Py65.Proofs.MonCmdGenEq', 'Py65.Props.C20g']
+LEAN_MODULES = ['Py65.Props.C20', 'Py65.Proofs.MonPreGenEq', 'Py65.Proofs.MonCmdGenEq', 'Py65.Props.C20g',
+                'Py65.Proofs.MonCompose', 'Py65.Props.C20h']
+NAMESPACES = ['Py65.Props.C20', 'Py65.Proofs.MonPreGenEq', 'Py65.Proofs.MonCmdGenEq', 'Py65.Props.C20g',
+              'Py65.Proofs.MonCompose', 'Py65.Props.C20h']
 # library helpers (CPython behaviour modelled in lean/Py65/Model/*Rt*.lean ...) that the generated code of these
 # modules calls, derived by scanning the Lean sources (harness/rtscan.py); validated against CPython on every run
 import rtcheck  # noqa: E402
 RT_HELPERS = rtcheck.helpers_for(LEAN_MODULES)
 LEVEL = 'proof'
 USES_PROLOGUE = True
-USES_GEN = False
+# Py65.Proofs.MonCompose imports Py65.Proofs.MonIOGenEq, which imports the CPU-generated Gen/Devices (class widths)
+USES_GEN = True
 EXPECTED_THEOREMS = [
     'Py65.Props.C20.dispatch_total', 'Py65.Props.C20.quit_forms', 'Py65.Props.C20.rejected_unchanged',
     'Py65.Props.C20.registers_exact', 'Py65.Props.C20.shortcut_equiv', 'Py65.Props.C20.quit_forms_exit',
@@ -83,6 +86,25 @@ EXPECTED_THEOREMS = [
     'Py65.Props.C20g.onecmd_never_raises', 'Py65.Props.C20g.onecmd_returns', 'Py65.Props.C20g.onecmd_needs_noloop',
     'Py65.Props.C20g.quit_forms', 'Py65.Props.C20g.quit_forms_exit', 'Py65.Props.C20g.rejected_unchanged',
     'Py65.Props.C20g.refusals_shown', 'Py65.Props.C20g.registers_exact', 'Py65.Props.C20g.commands_is_generated',
+    # composition (builder `honest`): the generated commands of the other units plugged into the generated dispatcher;
+    # OthModels / Ext.Honest discharged call by call
+    'Py65.Proofs.MonCompose.onecmd_sim_at', 'Py65.Proofs.MonCompose.onecmd_rejected_at',
+    'Py65.Proofs.MonCompose.onecmdL_dispatched',
+    'Py65.Proofs.MonCompose.models_fill', 'Py65.Proofs.MonCompose.models_load', 'Py65.Proofs.MonCompose.models_goto',
+    'Py65.Proofs.MonCompose.models_ret', 'Py65.Proofs.MonCompose.models_step',
+    'Py65.Proofs.MonCompose.fill_honest', 'Py65.Proofs.MonCompose.load_honest', 'Py65.Proofs.MonCompose.goto_honest',
+    'Py65.Proofs.MonCompose.extG_honest_at',
+    'Py65.Proofs.MonCompose.addBp_model', 'Py65.Proofs.MonCompose.delBp_model',
+    'Py65.Proofs.MonCompose.models_add_breakpoint', 'Py65.Proofs.MonCompose.models_delete_breakpoint',
+    'Py65.Proofs.MonCompose.models_show_breakpoints', 'Py65.Proofs.MonCompose.models_save',
+    'Py65.Proofs.MonCompose.models_mem', 'Py65.Proofs.MonCompose.models_cycles', 'Py65.Proofs.MonCompose.models_tilde',
+    'Py65.Proofs.MonCompose.models_disassemble', 'Py65.Proofs.MonCompose.coreOfIo_resetSt',
+    'Py65.Proofs.MonCompose.models_reset', 'Py65.Proofs.MonCompose.models_mpu',
+    'Py65.Proofs.MonCompose.models_at', 'Py65.Proofs.MonCompose.callOK_of_rejected',
+    'Py65.Proofs.MonCompose.onecmd_sim_composed', 'Py65.Proofs.MonCompose.onecmd_rejected_composed',
+    'Py65.Props.C20h.rejected_unchanged_composed', 'Py65.Props.C20h.never_raises_composed',
+    'Py65.Props.C20h.onecmd_agrees_composed', 'Py65.Props.C20h.oth_models_composed',
+    'Py65.Props.C20h.ext_honest_composed', 'Py65.Props.C20h.refusals_composed',
 ]
 RULE = ('a line counts as non-trivial when the real monitor dispatched it to a command or refused it '
         '(i.e. everything except blank lines with nothing to repeat); distinct = distinct '
@@ -133,6 +155,26 @@ TRUSTED = [
     'return) are an abstract parameter `Ext` of the dispatcher; rejected_unchanged assumes Ext.Honest '
     '(their own properties: C07, C16, C17)',
     'the Python oracle of this module (grammar generator, expected effects by construction, markers of refusal)',
+    'COMPOSITION (Py65.Proofs.MonCompose, Py65.Props.C20h): the two hypotheses above are DISCHARGED for the commands '
+    'the other units regenerate.  othG = the parameter `oth` of the generated dispatcher built from the GENERATED '
+    'do_fill / do_load / do_save / do_mem (+ generated _fill), do_step / do_goto / do_return, do_add_breakpoint / '
+    'do_delete_breakpoint / do_show_breakpoints, do_cycles / do_tilde / do_disassemble, do_reset / do_mpu; extG = the '
+    'model\'s Ext read off the same generated commands (verdict: fill/load accepted iff ended normally and the last '
+    'line printed starts with "Wrote +"; goto refused iff it raised or the argument is empty; step/return never).  '
+    'Proved: OthModels call by call (models_at), Ext.Honest at every core with a well-formed label table '
+    '(extG_honest_at, from C16g.fill_rejects, do_load_eq, do_goto_eq), hence rejected_unchanged_composed / '
+    'never_raises_composed / onecmd_agrees_composed for the generated onecmd with the generated commands.  A change of '
+    'any of those methods regenerates its unit here too (pre_build runs every unit) and breaks the unit GenEq theorem '
+    'this composition imports.  STILL ASSUMED: UntModels / AsmHonest for do_help, do_version, do_assemble (+ '
+    '_interactive_assemble), do_cd, do_pwd (they end, leave the core alone -- assemble: change registers/cells as '
+    'P.asm says, nothing when refused --, leave lastcmd alone, return no true value)',
+    'the state adapters of lean/Py65/Model/MonComposeRt.lean (hand-written glue between the units\' state records '
+    'CmdSt / MemSt / RunSt / ShowSt / IoSt): memory object = ANY ObservableMemory around the session\'s cells (GlueOK); '
+    'the device object of units run/show gets cycles = 0, waiting = false (the session core has no such fields); for '
+    'unit io registers / labels / radix are read back through object identity (a NEW device object has reset registers, '
+    'a NEW AddressParser no labels and radix 16: constructor behaviour, modelled); every unit command starts with an '
+    'empty output list and what it printed is appended; files written are dropped; exception classes outside '
+    'MonGenRt.Exc become Exc.Other',
 ]
 ASSUMPTIONS = [
     'input lines are over ASCII',
@@ -144,8 +186,9 @@ ASSUMPTIONS = [
     'requests exit as well -- counted as the quit form repeated',
     'interactive assembly reads further lines from stdin: they are part of that command, not command lines',
     'tie by regeneration covers _add_shortcuts, _preprocess_line, Monitor.onecmd, cmd.Cmd.onecmd/parseline/default/'
-    'emptyline and the commands registers, radix, width, add_label, delete_label, show_labels, quit; the other '
-    'commands remain hand-modelled (correspondence).  The translator resolves self._shortcuts[\'~\'] against the table '
+    'emptyline and the commands registers, radix, width, add_label, delete_label, show_labels, quit; the commands of '
+    'the other units enter through the composition C20h (see TRUSTED); help, version, assemble, cd, pwd remain '
+    'hand-modelled (correspondence).  The translator resolves self._shortcuts[\'~\'] against the table '
     'literal of _add_shortcuts and checks that nothing else assigns self._shortcuts; for unit `cmds` it checks that '
     'class Monitor derives from cmd.Cmd only, overrides none of parseline / default / emptyline / precmd / postcmd / '
     '__getattr__ / identchars / lastcmd, assigns no do_* attribute outside `def`, and that _output, _reset and __init__ '
@@ -153,15 +196,24 @@ ASSUMPTIONS = [
     'the generated dispatcher is total only up to fuel: the recursion onecmd -> emptyline -> onecmd of an empty line '
     'whose lastcmd preprocesses to an empty line does not end in Python either (RecursionError, absorbed); the '
     'restated theorems exclude exactly that situation (Loops) and onecmd_needs_noloop shows the exclusion is needed',
+    'composition C20h: the session core has no cycle counter / WAI flag / I-O streams / file system, so the composed '
+    'statements are about the monitor projected onto device, registers, cells, labels, breakpoints, radix, width; '
+    'fuel: P.fuelFill above the address-space size of the session device (FillFuel) and above the length of every '
+    'loadable file (LoadFuel); a run / listing that exhausts P.fuelRun / P.fuelDis is not judged (CallOK); the label '
+    'table is well formed (Parser.WF: every value went through _constrain)',
 ]
 
 def pre_build(ctx):
     """translator tie: regenerate lean/Py65/Gen/MonPreGen.lean and MonCmdGen.lean from the current monitor.py
-    (and the installed cmd.py)"""
-    from props import montie, moncmdtie
-    a = montie.pre_build(ctx, 'pre')
+    (and the installed cmd.py); for the composition (Py65.Props.C20h) also the units whose generated commands are
+    plugged into the dispatcher: fill, memcmd, run, show (+ repr, same translator), io"""
+    from props import montie, moncmdtie, monmemtie, iotie
+    import showgen
+    oks = [montie.pre_build(ctx, 'fill'), monmemtie.pre_build(ctx), montie.pre_build(ctx, 'run'),
+           showgen.pre_build(ctx), iotie.pre_build(ctx)]
+    a = montie.pre_build(ctx, 'pre')       # last of the montie units: its record stays in stats['translator']['monitor']
     b = moncmdtie.pre_build(ctx)
-    return a and b
+    return a and b and all(bool(o) for o in oks)
 
 
 SHORTCUTS = {'EOF': 'quit', '~': 'tilde', 'a': 'assemble', 'ab': 'add_breakpoint', 'al': 'add_label',
